@@ -59,19 +59,40 @@ class DriverError(Exception):
     pass
 
 
+_PRIVATE_DRIVER = [None]
+
+
+def private_driver():
+    """A per-process copy of the driver binary, taken under the lake lock: a concurrent check that relinks the driver
+    (after a source change regenerated a model constant) cannot pull the binary away from under a running check."""
+    if _PRIVATE_DRIVER[0] and os.path.exists(_PRIVATE_DRIVER[0]):
+        return _PRIVATE_DRIVER[0]
+    import atexit
+    import shutil
+    with lake_lock():
+        if not os.path.exists(DRIVER):
+            subprocess.run(["lake", "build", "pvdriver"], cwd=LEAN, stdout=subprocess.PIPE, stderr=subprocess.STDOUT, timeout=3000)
+        if not os.path.exists(DRIVER):
+            raise DriverError("driver binary missing: " + DRIVER)
+        dst = DRIVER + ".run.%d" % os.getpid()
+        shutil.copy2(DRIVER, dst)
+    _PRIVATE_DRIVER[0] = dst
+    atexit.register(lambda: os.path.exists(dst) and os.unlink(dst))
+    return dst
+
+
 class Driver:
     """Batch interface to the Lean model driver (line protocol)."""
 
     def __init__(self):
-        if not os.path.exists(DRIVER):
-            raise DriverError("driver binary missing: " + DRIVER)
+        self.path = private_driver()
 
     def run(self, lines, timeout=600):
         """Send all lines, return list of output lines (same length)."""
         if not lines:
             return []
         data = ("\n".join(lines) + "\n").encode()
-        p = subprocess.run([DRIVER], input=data, stdout=subprocess.PIPE, stderr=subprocess.PIPE, timeout=timeout)
+        p = subprocess.run([self.path], input=data, stdout=subprocess.PIPE, stderr=subprocess.PIPE, timeout=timeout)
         out = p.stdout.decode().split("\n")
         if out and out[-1] == "":
             out.pop()
